@@ -468,3 +468,22 @@ Definition case_ok (c : case) : bool :=
 
 Definition mismatches (cs : list case) : list N :=
   map (fun c => let '(id, _, _, _, _, _) := c in id) (filter (fun c => negb (case_ok c)) cs).
+
+(* A scripted operation sequence on the real buffer (one goroutine, the harness owns the
+   channel): Some n = Write of the next n numbered items, None = Close; observed: the
+   batches that appeared on the channel, in order, with their contents. *)
+Fixpoint number_ops (next : N) (ops : list (option nat)) : list (op N) :=
+  match ops with
+  | [] => []
+  | Some n :: r => Write (expand_run next n) :: number_ops (next + N.of_nat n)%N r
+  | None :: r => Close :: number_ops next r
+  end.
+
+Definition opcase := (N * nat * list (option nat) * list (list (N * nat)))%type.
+
+Definition opcase_ok (c : opcase) : bool :=
+  let '(id, n, ops, observed) := c in
+  list_eqb (list_eqb N.eqb) (sent (run n (number_ops 0%N ops))) (map expand observed).
+
+Definition mismatches_ops (cs : list opcase) : list N :=
+  map (fun c => let '(id, _, _, _) := c in id) (filter (fun c => negb (opcase_ok c)) cs).
